@@ -927,3 +927,99 @@ func ruleAllocatePrefersFreeList(c *Ctx, id string) {
 		c.check(id+":(*DB).allocate:free-list-first", da, da.Pos(), "db.allocate asks the free list for exactly count pages first and, when a run is offered, returns it without touching the high-water mark or the mapping; only otherwise the file grows", bad == "", bad)
 	})
 }
+
+// ruleAllocateLimitTable (C18.R5): with a size limit configured, db.allocate must refuse a run whose end lies
+// beyond the limit before it moves the high-water mark or remaps (with NoGrowSync, or on windows, nothing
+// else stops the file from growing past the limit), and must not refuse when even the chunked growth fits.
+func ruleAllocateLimitTable(c *Ctx, id string) {
+	c.rule(id, "allocate-limit-table", 1, func() {
+		da := c.fn("bbolt.(*DB).allocate")
+		type row struct {
+			hwm, count, max int64
+			wantErr         bool
+		}
+		const P = 4096
+		rows := []row{
+			{100, 1, 0, false},              // no limit
+			{100, 1, 400000, true},          // (100+1+1)*4096 = 417792 > limit
+			{100, 10, 430000, true},         // (100+10+1)*4096 = 454656 > limit
+			{100, 1, 64 << 20, false},       // plenty of room (mmapSize 512K, AllocSize 16M: growth to 512K)
+			{6, 1, 32768, false},            // 8 pages = 32768 exactly at the limit
+			{7, 1, 32768, true},             // 9 pages exceed it
+		}
+		bad := ""
+		for _, r := range rows {
+			hwmMoved, remapped := false, false
+			var lastID V
+			ev := &Evaluator{
+				Load: func(u *ssa.UnOp) (V, bool) {
+					switch n := pathOf(u).Names(); {
+					case strings.HasSuffix(n, "MaxSize"):
+						return iV(r.max), true
+					case strings.HasSuffix(n, "pageSize"):
+						return iV(P), true
+					case strings.HasSuffix(n, "datasz"):
+						return iV(32768), true
+					case strings.HasSuffix(n, "AllocSize"):
+						return iV(16 << 20), true
+					}
+					return unkV, false
+				},
+				Param: func(p *ssa.Parameter) (V, bool) {
+					if p.Name() == "count" {
+						return iV(r.count), true
+					}
+					return symV(p.Name()), true
+				},
+				Call: func(call *ssa.Call, args []V) (V, bool) {
+					name := calleeOf(call).Name()
+					switch {
+					case strings.HasSuffix(name, ".Allocate"):
+						return uV(0), true
+					case name == "common.(*Meta).Pgid":
+						return uV(uint64(r.hwm)), true
+					case name == "common.(*Meta).SetPgid":
+						hwmMoved = true
+						return unkV, false
+					case name == "common.(*Page).SetId":
+						lastID = args[1]
+						return unkV, false
+					case name == "common.(*Page).Id":
+						return lastID, true
+					case name == "bbolt.(*DB).mmap":
+						remapped = true
+						return nilV, true
+					case name == "errors.New", name == "fmt.Errorf":
+						return symV("error"), true
+					case name == "bbolt.(*DB).mmapSize", name == "bbolt.(*DB).growSize":
+						return unkV, false // inlined below
+					}
+					return successCall(call)
+				},
+				Inline: func(f *ssa.Function) bool {
+					n := shortFn(f)
+					return n == "bbolt.(*DB).mmapSize" || n == "bbolt.(*DB).growSize"
+				},
+			}
+			o := ev.Exec(da, nil)
+			if o.Kind != "return" || len(o.Rets) != 2 {
+				bad = fmt.Sprintf("allocate(count=%d) at high-water mark %d with MaxSize %d: %s", r.count, r.hwm, r.max, o)
+				break
+			}
+			gotErr := o.Rets[1].K != vNil
+			if gotErr != r.wantErr {
+				bad = fmt.Sprintf("allocate(count=%d) at high-water mark %d (run ends at byte %d) with MaxSize %d: error=%v, want %v", r.count, r.hwm, (r.hwm+r.count+1)*P, r.max, gotErr, r.wantErr)
+				break
+			}
+			if gotErr && (hwmMoved || remapped) {
+				bad = fmt.Sprintf("allocate refuses (MaxSize %d) only after moving the high-water mark (%v) or remapping (%v)", r.max, hwmMoved, remapped)
+				break
+			}
+			if gotErr && o.Rets[1].S != "global:ErrMaxSizeReached" {
+				bad = fmt.Sprintf("the refusal is reported as %s, not as ErrMaxSizeReached", o.Rets[1])
+				break
+			}
+		}
+		c.check(id+":(*DB).allocate:limit-table", da, da.Pos(), fmt.Sprintf("with MaxSize configured, a run ending beyond the limit is refused with ErrMaxSizeReached before the high-water mark moves or the file is remapped; requests that fit are granted (%d rows)", len(rows)), bad == "", bad)
+	})
+}
